@@ -499,10 +499,32 @@ func (br *bodyRun) convert(st *State, x *ssa.Convert) Val {
 		// []byte("") of an empty string may be nil or not; keep the fresh region
 		return r
 	}
-	if _, ok := to.Underlying().(*types.Pointer); ok {
-		unsup("unsafe pointer conversion")
+	if pt, ok := to.Underlying().(*types.Pointer); ok {
+		// unsafe.Pointer -> *T : only the two byte-view idioms
+		u, isU := v.(UnsafeV)
+		unsupIf(!isU, "unsafe pointer conversion")
+		if types.Identical(pt.Elem(), u.Elem) {
+			return u.P
+		}
+		if b, isB := u.Elem.Underlying().(*types.Basic); isB && b.Kind() == types.Uint8 && u.P.Kind == PElem && len(u.P.Path) == 0 {
+			// *byte -> *T for a flat struct T
+			_, flat := flatLayout(pt.Elem())
+			unsupIf(!flat, "unsafe view of bytes as %s", pt.Elem())
+			return PtrV{Kind: PView, Ref: u.P.Ref, Idx: u.P.Idx, Root: pt.Elem()}
+		}
+		if at, isA := pt.Elem().Underlying().(*types.Array); isA && u.P.Kind != PView {
+			if b, isB := at.Elem().Underlying().(*types.Basic); isB && b.Kind() == types.Uint8 {
+				return fc.structAsBytes(st, u.P, u.Elem, at)
+			}
+		}
+		unsup("unsafe pointer conversion %s -> %s", u.Elem, to)
 	}
 	if b, ok := to.Underlying().(*types.Basic); ok && b.Kind() == types.UnsafePointer {
+		if p, isP := v.(PtrV); isP {
+			if fp, isPtr := from.Underlying().(*types.Pointer); isPtr {
+				return UnsafeV{P: p, Elem: fp.Elem()}
+			}
+		}
 		unsup("unsafe pointer conversion")
 	}
 	unsup("conversion %s -> %s", from, to)
@@ -512,6 +534,12 @@ func (br *bodyRun) convert(st *State, x *ssa.Convert) Val {
 // memcpy: dst[dOff+i] = src[sOff+i] for 0 <= i < n (offsets relative to the slices), with
 // memmove semantics.
 func (fc *FnCtx) memcpy(st *State, et types.Type, dst SliceV, dOff string, src SliceV, sOff string, n string) {
+	if fc.views != nil {
+		fc.viewRefresh(st, src.Ref)
+		if _, ok := fc.views[dst.Ref]; ok {
+			defer fc.viewWriteBack(st, dst.Ref)
+		}
+	}
 	for _, l := range leavesOf(et) {
 		key := "elem|" + typeName(et) + l.Suffix
 		srt := arrSort(true, l.Sort)
